@@ -18,7 +18,7 @@ func init() { Register(c09{}) }
 func (c09) ID() string    { return "C09" }
 func (c09) Level() string { return "fault_enumeration" }
 func (c09) Rule() string {
-	return "workload = seeded writer history (shape x page size x codec x batch grammar); cases = for EVERY sink call k of the fault-free run: err0 transient (always) and torn/err0-sticky/torn-sticky (quick: seeded 1-in-4 of k, thorough: every k; 1% of thorough workloads are of the large class - pages of 100..1200 records - and sample these kinds 1-in-4). A case is non-trivial when its fault actually fired (the sink returned the injected error); distinct = distinct (workload digest, k, kind)."
+	return "workload = seeded writer history (shape x page size x codec x batch grammar) x destination kind {io.Writer only; io.Writer+StringWriter+ByteWriter+ReaderFrom}; cases = for EVERY sink call k of the fault-free run: err0 transient (always) and torn/err0-sticky/torn-sticky (quick: seeded 1-in-4 of k, thorough: every k; 1% of thorough workloads are of the large class - pages of 100..1200 records - and sample these kinds 1-in-4). A case is non-trivial when its fault actually fired (the sink returned the injected error); distinct = distinct (workload digest, k, kind)."
 }
 func (c09) Assumptions() []string {
 	return []string{
@@ -28,7 +28,7 @@ func (c09) Assumptions() []string {
 	}
 }
 func (c09) Probes() []string {
-	return []string{"fired/New/magic", "fired/Write/page-header", "fired/Write/page-body", "fired/Close/footer", "fired/Close/footer-len", "fired/Close/tail-magic", "fired/kind/torn", "fired/kind/err0-sticky", "codec/gzip", "codec/snappy", "codec/uncompressed"}
+	return []string{"fired/New/magic", "fired/Write/page-header", "fired/Write/page-body", "fired/Close/footer", "fired/Close/footer-len", "fired/Close/tail-magic", "fired/kind/torn", "fired/kind/err0-sticky", "codec/gzip", "codec/snappy", "codec/uncompressed", "sink-kind/w", "sink-kind/wx"}
 }
 func (c09) Runs(tier string) int {
 	if tier == "thorough" {
@@ -83,11 +83,13 @@ func (p c09) Run(runseed uint64, tier string, acc *Acc) []*core.Violation {
 	r := core.NewRng(runseed)
 	w := core.GenHistory(r, c09Opts(tier))
 	acc.Runs++
-	ref, ok := refWrite(w)
+	sinkKind := []string{"w", "wx"}[r.Intn(2)]
+	ref, ok := refWriteKind(w, sinkKind)
 	if !ok {
 		acc.Unusable++
 		return nil
 	}
+	acc.Inc("sink-kind/" + sinkKind)
 	regions := sinkRegions(ref)
 	n := len(ref.Sink.Calls)
 	digest := core.HashBytes(append([]byte(w.HistoryString()), ref.Sink.Data...))
@@ -108,7 +110,7 @@ func (p c09) Run(runseed uint64, tier string, acc *Acc) []*core.Violation {
 				core.SinkFault{K: k, Kind: "torn", Arg: r.Intn(1 << 16), Sticky: true})
 		}
 		for i := range kinds {
-			c := &core.Case{Prop: "C09", Seed: runseed, W: w, SinkFault: &kinds[i]}
+			c := &core.Case{Prop: "C09", Seed: runseed, W: w, SinkFault: &kinds[i], SinkKind: sinkKind}
 			v, fired, steps := p.check(c)
 			acc.Evals++
 			acc.Steps += steps
@@ -140,7 +142,7 @@ func (p c09) Run(runseed uint64, tier string, acc *Acc) []*core.Violation {
 
 func (p c09) check(c *core.Case) (v *core.Violation, fired bool, steps int) {
 	sink := &core.Sink{Fault: c.SinkFault}
-	res := core.ExecWriter(c.W, sink)
+	res := core.ExecWriterKind(c.W, sink, sinkKindOr(c.SinkKind))
 	steps = len(sink.Calls)
 	fired = sink.Fired > 0
 	for _, a := range res.APIs {
@@ -183,7 +185,7 @@ func (p c09) Check(c *core.Case) (*core.Violation, error) {
 	v, _, _ := p.check(c)
 	if v != nil {
 		// add the region label from a fault-free run when one exists
-		if ref, ok := refWrite(c.W); ok {
+		if ref, ok := refWriteKind(c.W, sinkKindOr(c.SinkKind)); ok {
 			k := firstFailedIndex(c)
 			regions := sinkRegions(ref)
 			if k >= 1 && k <= len(regions) {
@@ -205,6 +207,11 @@ func (p c09) Shrink(c *core.Case) []*core.Case {
 		g := f
 		g.Sticky = false
 		n.SinkFault = &g
+		out = append(out, &n)
+	}
+	if c.SinkKind == "wx" {
+		n := *c
+		n.SinkKind = "w"
 		out = append(out, &n)
 	}
 	if f.Kind == "torn" {
